@@ -29,6 +29,7 @@ RULE = (
 ASSUMPTIONS = [
     "L1: parameters and inputs are real: generic draws from VERIF_SEED, parameters perturbed by N(0, sigma^2) off initialisation; tolerance 2e-3 relative end to end (the same threshold locates the first diverging layer in the trace); a mismatch must repeat on two further inputs to be reported",
     "the group is the computed stabiliser of the model's filter banks (conv and upsample banks)",
+    "U-Nets pool with norm max pooling: inputs are drawn until in every patch of every max-pool input the two largest pixel norms differ by > 1e-3 relative (the uniqueness premise stated in C08); a cell where 6 generic inputs all fail it (structurally tied norms, e.g. single-channel ReLU vector neuron with a negative weight: |v| ~ 2 eps/|w| at every pixel) is counted as disabled",
     "signatures are restricted to type sets that are stable under the bank (every mid type reachable); group norm only for k<=1 (the library's documented limit)",
     "L2: d=2 (quick: 2 cells in d=3; thorough: d=3 within 2 deviations); depth<=2, blocks<=2, downsamples<=2",
 ]
@@ -142,12 +143,22 @@ def run_case(case, seed):
         if len(v) < 4:
             v.append(viol(fp, msg, case=case, **d))
 
+    pool_margin = [1.0]
+
     def forward(xb, fl):
         with mlh.Monitor() as mon:
             y = model(mlh.to_mi(xb, D, fl, order=in_order))
             y = y[0] if isinstance(y, tuple) else y
             trace = mon.take()
+            pool_margin[0] = min(pool_margin[0], mon.take_pool_margin())
         return mlh.np_blocks(y), [(n, mlh.np_blocks(m)) for n, m in trace]
+
+    def premise(xb):
+        """uniqueness premise of norm max pooling (C08): in every patch of every max-pool input of this run the two
+        largest pixel norms differ by more than 1e-3 relative; otherwise the arg-max is decided by rounding"""
+        pool_margin[0] = 1.0
+        forward(xb, flags)
+        return pool_margin[0] > 1e-3
 
     is_unet = case["cls"] == "UNet"
     pool = 2 ** case["size"] if is_unet else 1
@@ -197,8 +208,17 @@ def run_case(case, seed):
                 ctrl = any(mlh.relerr(ys[t], np.roll(y0[t], one, axis=tuple(range(1, 1 + D)))) > 10 * TOL for t in y0)
         return worst, moved, nonzero, ctrl, y0
 
-    xb = mlh.make_input(in_sig, D, sp, rng, integer=False)
     try:
+        xb = None
+        for _ in range(6):  # draw generic inputs until the max-pool uniqueness premise holds (U-Nets only)
+            cand = mlh.make_input(in_sig, D, sp, rng, integer=False)
+            if not is_unet or premise(cand):
+                xb = cand
+                break
+        if xb is None:
+            # structurally (nearly) tied pixel norms at a max pool, e.g. a single-channel ReLU vector neuron with a
+            # negative weight leaves |v| ~ 2 eps/|w| at every pixel: outside the premise, counted, never a pass
+            return {"status": "disabled", "note": "max-pool uniqueness premise fails on 6 generic inputs"}
         worst, moved, nonzero, ctrl, y0 = defect(xb)
     except NotImplementedError as e:
         return {"status": "rejected", "note": f"NotImplementedError: {str(e)[:80]}"}
@@ -212,6 +232,9 @@ def run_case(case, seed):
         confirmed = True
         for i in range(2):
             x2 = mlh.make_input(in_sig, D, sp, rng_for(seed, "C07confirm", i, ckey), integer=False)
+            if is_unet and not premise(x2):
+                confirmed = False
+                break
             w2 = defect(x2)[0]
             if w2["e"] <= TOL:
                 confirmed = False
